@@ -129,6 +129,7 @@ func (v *PacketDslVisitorImpl) VisitPacketDefinition(ctx *gen.PacketDefinitionCo
 	var fieldMap = make(map[string]*model.Field)
 	var lengthField *model.Field
 	var matchFields = make(map[string][]model.MatchPair)
+	var fieldLine = make(map[*model.Field]int)
 	for _, fctx := range ctx.AllFieldDefinitionWithAttribute() {
 		if fc, ok := fctx.(*gen.FieldDefinitionWithAttributeContext); ok {
 			fd := v.VisitFieldDefinitionWithAttribute(fc)
@@ -168,6 +169,7 @@ func (v *PacketDslVisitorImpl) VisitPacketDefinition(ctx *gen.PacketDefinitionCo
 			}
 			fields = append(fields, fld)
 			fieldMap[fld.Name] = fld
+			fieldLine[fld] = fctx.GetStart().GetLine()
 
 			if mf, ok := fld.Attr.(*model.MatchFieldAttribute); ok {
 				matchFields[mf.MatchKeyField.Name] = mf.MatchPairs
@@ -175,6 +177,17 @@ func (v *PacketDslVisitorImpl) VisitPacketDefinition(ctx *gen.PacketDefinitionCo
 		}
 	}
 
+	if lengthField != nil {
+		target := lengthField.Attr.(*model.LengthFieldAttribute).TragetField.Name
+		if _, ok := fieldMap[target]; !ok {
+			v.BinModel.AddSyntaxError(&model.SyntaxError{
+				Line:   fieldLine[lengthField],
+				Column: lengthField.Column,
+				Msg:    "Unknown field " + target + " for @lengthOf of field " + lengthField.Name,
+			})
+			lengthField = nil
+		}
+	}
 	for _, f := range fields {
 		if lengthField != nil && f.Name == lengthField.Attr.(*model.LengthFieldAttribute).TragetField.Name {
 			lengthField.LenAttr = &model.LengthOfAttribute{
@@ -193,7 +206,15 @@ func (v *PacketDslVisitorImpl) VisitPacketDefinition(ctx *gen.PacketDefinitionCo
 				TragetField: fieldMap[c.TragetField.Name],
 			}
 		case *model.MatchFieldAttribute:
-			c.MatchKeyField = fieldMap[c.MatchKeyField.Name]
+			if keyField, ok := fieldMap[c.MatchKeyField.Name]; ok {
+				c.MatchKeyField = keyField
+			} else {
+				v.BinModel.AddSyntaxError(&model.SyntaxError{
+					Line:   fieldLine[f],
+					Column: f.Column,
+					Msg:    "Unknown key field " + c.MatchKeyField.Name + " for match field " + f.Name,
+				})
+			}
 
 		}
 	}
@@ -382,6 +403,7 @@ func (v *PacketDslVisitorImpl) VisitInerObjectField(ctx *gen.InerObjectFieldCont
 	decl := ctx.InerObjectDeclaration()
 	name := decl.IDENTIFIER().GetText()
 	var subFields []*model.Field
+	var subFieldLine = make(map[*model.Field]int)
 	// Iterate all sub-field definitions inside the nested object
 	for _, fctx := range decl.AllFieldDefinition() {
 		fld := v.VisitFieldDefinition(fctx)
@@ -390,6 +412,31 @@ func (v *PacketDslVisitorImpl) VisitInerObjectField(ctx *gen.InerObjectFieldCont
 		}
 		f := fld.(*model.Field)
 		subFields = append(subFields, f)
+		subFieldLine[f] = fctx.GetStart().GetLine()
+	}
+	subFieldMap := make(map[string]*model.Field)
+	for _, f := range subFields {
+		subFieldMap[f.Name] = f
+	}
+	for _, f := range subFields {
+		if mf, ok := f.Attr.(*model.MatchFieldAttribute); ok {
+			if keyField, ok := subFieldMap[mf.MatchKeyField.Name]; ok {
+				mf.MatchKeyField = keyField
+			} else {
+				v.BinModel.AddSyntaxError(&model.SyntaxError{
+					Line:   subFieldLine[f],
+					Column: f.Column,
+					Msg:    "Unknown key field " + mf.MatchKeyField.Name + " for match field " + f.Name,
+				})
+			}
+		}
+		if _, ok := f.Attr.(*model.LengthFieldAttribute); ok {
+			v.BinModel.AddSyntaxError(&model.SyntaxError{
+				Line:   subFieldLine[f],
+				Column: f.Column,
+				Msg:    "LengthOfField can only be declared in the root packet",
+			})
+		}
 	}
 	// Construct nested Packet model
 	p := model.Packet{
